@@ -12,6 +12,7 @@ import json
 from .. import memnet, tlc, util
 from .. import sched as S
 
+UNIXPATH = "verif-e01-location2.sock"
 GEN_CFG = """INIT GInit
 NEXT GNext
 CONSTANTS Names = {"a", "b"}
@@ -51,7 +52,8 @@ def run_scripts(scripts, horizon, every):
             ports = {}
             listeners = {}
             for s in ("s1", "s2"):
-                ls = net.create_socket(bind=("127.0.0.1", 0))
+                # (the second location is a Unix domain socket: objects registered there have a socket name, not a host and port)
+                ls = net.create_socket(bind=("127.0.0.1", 0)) if s == "s1" else net.create_socket(bind=UNIXPATH)
                 ports[s] = ls.addr[1]
                 listeners[s] = ls
             cleaner = nameserver.AutoCleaner(ns)
@@ -65,13 +67,14 @@ def run_scripts(scripts, horizon, every):
                     e = events.get(t)
                     if e is not None:
                         if e["a"] == "register":
-                            ns.register(e["n"], "PYRO:obj_%s@127.0.0.1:%d" % (e["n"], ports[e["s"]]), safe=False)
+                            ns.register(e["n"], ("PYRO:obj_%s@127.0.0.1:%d" % (e["n"], ports[e["s"]])) if e["s"] == "s1"
+                                        else ("PYRO:obj_%s@./u:%s" % (e["n"], UNIXPATH)), safe=False)
                         elif e["a"] == "remove":
                             ns.remove(e["n"])
                         elif e["a"] == "down":
                             listeners[e["s"]].close()
                         elif e["a"] == "up":
-                            listeners[e["s"]] = net.create_socket(bind=("127.0.0.1", ports[e["s"]]))
+                            listeners[e["s"]] = net.create_socket(bind=("127.0.0.1", ports[e["s"]])) if e["s"] == "s1" else net.create_socket(bind=UNIXPATH)
                         tr.append(dict(e, e="env"))
                     names = sorted(n for n in ns.list() if n != "Pyro.NameServer")
                     tr.append({"e": "obs", "a": "", "n": "", "s": "", "t": t, "names": names})
